@@ -53,6 +53,23 @@ def run(ctx):
     ctx.drive("c06", None, of, args=["fam1", nr])
     ctx.judge("Judge_c06", "Judge_c06.cfg", of, label="rand1", chunk=6000)
     ctx.note("family 1 random strings: %d" % ctx.count_lines(of))
+    # ---- rune sweep: every Unicode scalar value inside short frames (Gen_c06s)
+    shapes = '{"mid"}' if ctx.quick else '{"mid", "solo", "first", "last", "esc", "q"}'
+    c = "Gen_c06s.cfg"
+    open(ctx.path("spec", c), "w").write("SPECIFICATION Spec\nCONSTANTS\n  BlockSize = 2048\n  Shapes = %s\nCHECK_DEADLOCK FALSE\n" % shapes)
+    cf = ctx.path("cases_sweep.ndjson")
+    r = ctx.tlc("Gen_c06s", c, env={"CASE_FILE": cf}, workers=1, timeout=600)
+    of = ctx.path("obs_sweep.ndjson")
+    ctx.drive("c06", cf, of)
+    recs = ctx.read_ndjson(of)
+    nrunes = sum(x["obs"].get("runlen", 0) + sum(y.get("runlen", 0) for y in x["obs"].get("rest", [])) for x in recs)
+    nruns = sum((1 if "runlen" in x["obs"] else 0) + len(x["obs"].get("rest", [])) for x in recs)
+    ctx.note("rune sweep: %d blocks, shapes %s: %d strings quoted and scanned by the real code, %d runs of alike behaviour judged"
+             % (len(recs), shapes, nrunes, nruns))
+    if nrunes < 1112064:
+        raise vp.Broken("rune sweep covered only %d strings" % nrunes)
+    ctx.coverage_extra["rune_sweep_strings"] = nrunes
+    ctx.judge("Judge_c06", "Judge_c06.cfg", of, label="sweep", chunk=6000)
     # ---- family 2: every string whatsoever x every template position
     sigma, n = ("SigmaW", 2) if ctx.quick else ("SigmaW", 3)
     c = "Gen_c06t_%s_%d.cfg" % (sigma, n)
